@@ -420,6 +420,10 @@ func (c *ctx) loopBounded(fc *fileCtx, fd *ast.FuncDecl, site ast.Node, subject,
 			if v, ok := ev.evalInt(b.Y); ok && v == 3 {
 				return true
 			}
+			// i < len(Z) with len(Z) != len(subject) rejected earlier
+			if lc, ok := astx.Unparen(b.Y).(*ast.CallExpr); ok && astx.IsBuiltin(info, lc, "len") && len(lc.Args) == 1 && c.lengthsKnownEqual(fc, fd, l, lc.Args[0], subject) {
+				return true
+			}
 		case *ast.RangeStmt:
 			if l.Key == nil || astx.IdentObj(info, l.Key) != o {
 				continue
@@ -428,6 +432,9 @@ func (c *ctx) loopBounded(fc *fileCtx, fd *ast.FuncDecl, site ast.Node, subject,
 				return true
 			}
 			// len(l.X) != len(subject) => rejected earlier
+			if c.lengthsKnownEqual(fc, fd, l, l.X, subject) {
+				return true
+			}
 			for _, cd := range fc.par.Known(l, fd) {
 				be, ok := astx.Unparen(cd.E).(*ast.BinaryExpr)
 				if !ok {
@@ -442,6 +449,26 @@ func (c *ctx) loopBounded(fc *fileCtx, fd *ast.FuncDecl, site ast.Node, subject,
 					return true
 				}
 			}
+		}
+	}
+	return false
+}
+
+// lengthsKnownEqual: a test dominating `at` establishes len(a) == len(b) (an early return on `!=`, or an enclosing `==`).
+func (c *ctx) lengthsKnownEqual(fc *fileCtx, fd *ast.FuncDecl, at ast.Node, a, b ast.Expr) bool {
+	info := fc.pkg.TypesInfo
+	isLen := func(e ast.Expr, of ast.Expr) bool {
+		call, ok := astx.Unparen(e).(*ast.CallExpr)
+		return ok && astx.IsBuiltin(info, call, "len") && len(call.Args) == 1 && astx.Same(info, call.Args[0], of)
+	}
+	for _, cd := range fc.par.Known(at, fd) {
+		be, ok := astx.Unparen(cd.E).(*ast.BinaryExpr)
+		if !ok {
+			continue
+		}
+		eqKnown := (be.Op == token.NEQ && !cd.Pos) || (be.Op == token.EQL && cd.Pos)
+		if eqKnown && ((isLen(be.X, a) && isLen(be.Y, b)) || (isLen(be.Y, a) && isLen(be.X, b))) {
+			return true
 		}
 	}
 	return false
